@@ -184,6 +184,32 @@ def load_obligations():
         return json.load(f)
 
 
+def leanchecker():
+    """ thorough tier: the toolchain's independent re-checker replays every declaration of the
+    compiled library through the kernel (once per source hash; result cached under .lake).
+    -> '' or a description of the failure """
+    import fcntl
+    cache = os.path.join(LEAN_DIR, '.lake', f'leanchecker_{lean_sources_hash()}.json')
+    with open(os.path.join(LEAN_DIR, '.lake', 'leanchecker.lock'), 'w') as lk:
+        fcntl.flock(lk, fcntl.LOCK_EX)
+        if os.path.exists(cache):
+            try:
+                with open(cache) as f:
+                    return json.load(f)['bad']
+            except (ValueError, KeyError):
+                pass
+        try:
+            p = subprocess.run(['lake', 'env', 'leanchecker', 'SkModel'], cwd=LEAN_DIR, text=True,
+                               stdout=subprocess.PIPE, stderr=subprocess.STDOUT, check=False,
+                               timeout=3600)
+            bad = '' if p.returncode == 0 else f"exit {p.returncode}: {p.stdout[-400:]}"
+        except (OSError, subprocess.TimeoutExpired) as e:
+            bad = f"could not run: {e}"
+        with open(cache, 'w') as f:
+            json.dump({'bad': bad}, f)
+        return bad
+
+
 def audit(prop):
     """
     #print axioms for every theorem the property names in obligations.json.
@@ -238,6 +264,10 @@ def audit(prop):
             discharged.append(t)
     for h in report.get('forbidden', []):
         problems.append(f"forbidden construct: {h}")
+    if os.environ.get('VERIF_TIER_EFFECTIVE') == 'thorough':
+        bad = leanchecker()
+        if bad:
+            problems.append(f"leanchecker: {bad}")
     return {'obligations': mine, 'discharged': discharged, 'problems': problems,
             'partial': obl.get(prop, {}).get('partial', [])}
 
